@@ -34,7 +34,7 @@ EXC = {"custom": Boom19, "KeyError": KeyError, "ValueError": ValueError, "TypeEr
        "ZeroDivisionError": ZeroDivisionError, "LookupError": LookupError, "IndexError": IndexError,
        # next() on an exhausted iterator inside a converter: an ordinary failure of that cell, never the end of a row or table
        "StopIteration": StopIteration}
-OPS = ["convert", "convert-multi", "convertall", "fieldmap", "rowmap", "rowmapmany"]
+OPS = ["convert", "convert-multi", "convert-chain", "convertall", "fieldmap", "rowmap", "rowmapmany"]
 
 
 @st.composite
@@ -50,7 +50,9 @@ def case(draw, tier):
          # fieldmap: an output field is added to the caller's mappings object after the view was first used
          "late_mapping": draw(st.integers(0, 3)) == 0}
     cells = [(r, f) for r in range(n) for f in range(nf)]
-    if op in ("convert", "convert-multi", "convertall", "fieldmap"):
+    if op == "convert-chain" and nf < 2:
+        op = c["op"] = "convert-multi"
+    if op in ("convert", "convert-multi", "convert-chain", "convertall", "fieldmap"):
         c["failing"] = [list(x) for x in draw(st.lists(st.sampled_from(cells), unique=True, max_size=len(cells)))] if cells else []
         c["fields"] = sorted(draw(st.lists(st.integers(0, nf - 1), min_size=1, max_size=nf, unique=True))) if op != "convert" else [draw(st.integers(0, nf - 1))]
     elif op == "rowmap":
@@ -103,7 +105,7 @@ def check(case, ctx):
         other = {False: True, True: "inline", "inline": False}[policy]
         # via config: the default is the policy; via argument: the default says something else and must lose
         cfg.failonerror = policy if case["via_config"] else other
-        cellops = op in ("convert", "convert-multi", "convertall", "fieldmap")
+        cellops = op in ("convert", "convert-multi", "convert-chain", "convertall", "fieldmap")
         if cellops:
             failing = set(_tok(r, f) for r, f in case["failing"])
             fields = list(range(nf)) if op == "convertall" else case["fields"]
@@ -114,7 +116,16 @@ def check(case, ctx):
                 if v in failing:
                     raise cls(v)
                 return ("ok", v)
-            if op in ("convert", "convert-multi"):
+            chain_ev = {}
+            if op == "convert-chain":
+                # convert(convert(t, f0, errorvalue=X), f1, errorvalue=Y): two views, each with its own errorvalue
+                fields = fields[:2] if len(fields) >= 2 else [0, 1]
+                failing = set(t for t in failing if int(t.split("c")[1]) in fields)
+                inner_ev = ("inner", errorvalue)
+                chain_ev = {fields[0]: inner_ev, fields[1]: errorvalue}
+                inner = etl.convert(tbl, hdr[fields[0]], conv, errorvalue=inner_ev, **kw)
+                view = etl.convert(inner, hdr[fields[1]], conv, errorvalue=errorvalue, **kw)
+            elif op in ("convert", "convert-multi"):
                 spec = hdr[fields[0]] if op == "convert" else dict((hdr[f], conv) for f in fields)
                 view = etl.convert(tbl, spec, conv, errorvalue=errorvalue, **kw) if op == "convert" else etl.convert(tbl, spec, errorvalue=errorvalue, **kw)
             elif op == "convertall":
@@ -147,7 +158,7 @@ def check(case, ctx):
                         if policy is True:
                             stop = t
                             break
-                        cells.append(("EXC", t) if policy == "inline" else ("VAL", errorvalue))
+                        cells.append(("EXC", t) if policy == "inline" else ("VAL", chain_ev.get(f, errorvalue)))
                     elif f in fields:
                         cells.append(("VAL", ("ok", t)))
                     else:
@@ -276,6 +287,19 @@ def check(case, ctx):
                 pass
             except Exception as ex:
                 return Fail("%s/%s/raised-at-end" % (op, policy), "raised %r after all rows" % (ex,))
+        # the view seen through len(): as many items as a pass delivers (header included), and under the policy True the
+        # failure surfaces there as well
+        will_raise = any(k == "raise" for k, _ in exp_rows)
+        try:
+            ln = len(view)
+        except Exception as ex:
+            if not (will_raise and _surfaced(ex, cls, [p for k, p in exp_rows if k == "raise"][0])):
+                return Fail("%s/%s/len-raised" % (op, policy), "len(view) raised %r" % (ex,))
+        else:
+            if will_raise:
+                return Fail("%s/%s/len-hides-failure" % (op, policy), "len(view) returned %r although a pass raises" % (ln,))
+            if ln != 1 + len(exp_rows):
+                return Fail("%s/%s/len" % (op, policy), "len(view) is %r but a pass delivers %d items" % (ln, 1 + len(exp_rows)))
     finally:
         cfg.failonerror = old
     return None
